@@ -7,9 +7,13 @@ SPEC = {
         {"name": "TestNextAcrossInstances", "quick": 320, "thorough": 24000, "shards_quick": 8, "shards_thorough": 16, "timeout": 3000},
         {"name": "TestNextFirstTouchRace", "quick": 1600, "thorough": 64000, "shards_quick": 8, "shards_thorough": 16, "timeout": 3000,
          "race_thorough": True},
+        {"name": "TestHeavyWeights", "quick": 240, "thorough": 12000, "shards_quick": 8, "shards_thorough": 16, "timeout": 3000},
         {"name": "TestKnownWitness", "quick": 1, "thorough": 1, "shards": 1, "timeout": 300},
     ],
-    "rule": ("TestNextFirstTouchRace: 150 trials per case; in each a FRESH lib/mp iterator (what every scenario gets at provider "
+    "rule": ("TestHeavyWeights (added after seeded defect C15/m16): 2-4 scenarios of which one or two carry nearly all of the load "
+             "(weights 300-12000 next to 1-40, any order, all optionally multiplied by 2 / 5 / 10 / 100), http and grpc scenario "
+             "provider drained for 1-2 whole cycles of the weights by 1-4 consumers: scenario i must be delivered exactly cycles x w_i / gcd times. "
+             "TestNextFirstTouchRace: 150 trials per case; in each a FRESH lib/mp iterator (what every scenario gets at provider "
              "construction) is used by 2-8 goroutines released together, each evaluating 1-3 `source.<name>[next].id` paths 1-4 times "
              "over 1-5 rows; per path the rows handed out must be exactly round-robin as a multiset. rapid-generated scenario programs (internal/sceninterp.Program: every templated string is a list of literal parts and "
              "references, so the oracle never parses a Go template): 1-3 csv / json / variables sources with 1-5 rows (header line, "
@@ -105,6 +109,7 @@ SPEC = {
                "TestScenarioExecution/names_join_equally_default_templater_same_header_name": 0.025,
                "TestScenarioExecution/names_join_equally_default_templater_both_body": 0.015,
                "TestNextAcrossInstances/names_join_equally_both_rendered_default_templater": 0.04,
+               "TestHeavyWeights/ring_gt_1000": 0.35, "TestHeavyWeights/ring_gt_5000": 0.12, "TestHeavyWeights/provider_grpc/scenario": 0.2,
                # the html templater as a dimension (not prompted by a seed)
                "TestScenarioExecution/templater_html_step_rendered": 0.25, "TestScenarioExecution/templater_html_and_text_steps_in_one_run": 0.2,
                "TestScenarioExecution/templater_html_value_needs_escaping": 0.03, "TestScenarioExecution/templater_html_missing_var": 0.02,
